@@ -21,7 +21,8 @@ ATTR_SRC = {
     'lit': 'title={{1}}', 'arr': 'data={{[1, "a"]}}', 'obj': 'info={{{{a: v1}}}}', 'arrow': 'cb={{() => v1}}', 'mem': 'm={{v1.x}}',
     'undef': 'u={{undefined}}', 'id': 'id="a"', 'bool': 'disabled',
 }
-TAG_SRC = {'div': 'div', 'svg': 'svg', 'Foo': 'Foo', 'C1': 'C1', 'KeepAlive': 'KeepAlive', 'Fragment': 'Fragment', 'mem': 'v1.Foo', 'memtag': 'v1.button', 'memsvg': 'v2.svg', 'cust': 'x-y'}
+TAG_SRC = {'div': 'div', 'svg': 'svg', 'Foo': 'Foo', 'C1': 'C1', 'KeepAlive': 'KeepAlive', 'Fragment': 'Fragment', 'mem': 'v1.Foo', 'memtag': 'v1.button', 'memsvg': 'v2.svg', 'cust': 'x-y',
+           'mem3': 'v1.ui.Input', 'mem4': 'v1.a.table.Row', 'memthis': 'this.Foo', 'memthis3': 'this.ui.div'}
 
 
 def make_skeleton(spec):
@@ -167,8 +168,47 @@ def tag_matches(env, exp, got):
     return False
 
 
+def _jsx_member_path(jm):
+    """JSXMemberExpr -> [root Ident Adt, 'prop', ...] (outermost property last)"""
+    jm = deref(jm)
+    obj = deref(jm.get('obj'))
+    prop = denote.pystr(jm.get('prop').get('sym'))
+    if obj.variant == 'Ident':
+        return [obj.fields[0], prop]
+    if obj.variant == 'JSXMemberExpr':
+        return _jsx_member_path(obj.fields[0]) + [prop]
+    raise OracleGap('jsx member object ' + str(obj.variant))
+
+
+def _member_path(e):
+    """Expr::Member with identifier properties -> [root Ident Adt | 'this', 'prop', ...], or None"""
+    e = denote.E(e)
+    if denote.is_expr(e, 'Ident'):
+        return [e.fields[0]]
+    if denote.is_expr(e, 'This'):
+        return ['this']
+    if denote.is_expr(e, 'Member'):
+        pr = e.fields[0].get('prop')
+        if pr.variant != 'Ident':
+            return None
+        base = _member_path(e.fields[0].get('obj'))
+        return None if base is None else base + [denote.pystr(pr.fields[0].get('sym'))]
+    return None
+
+
 def _member_same(ctx, member_expr, jsx_member):
-    return False
+    """a plain member expression denotes the same value as the JSX member tag: same root binding, same property path"""
+    try:
+        want = _jsx_member_path(jsx_member)
+    except OracleGap:
+        return False
+    got = _member_path(member_expr)
+    if got is None or len(got) != len(want) or got[1:] != want[1:]:
+        return False
+    r0, g0 = want[0], got[0]
+    if g0 == 'this':
+        return denote.pystr(r0.get('sym')) == 'this'
+    return b_and(seq(r0.get('sym'), g0.get('sym')), r0.get('ctxt') == g0.get('ctxt'))
 
 
 def expected_groups(env, attrs):
@@ -337,7 +377,7 @@ MORE_ATTRS = ['E:5', 'S:5', 'clsA', 'sty', 'onF', 'lit', 'arr', 'arrow', 'mem', 
 def jobs(tier):
     out = []
     tags_q = ['div', 'Foo', 'C1']
-    tags_all = ['div', 'svg', 'Foo', 'C1', 'KeepAlive', 'mem', 'memtag', 'memsvg', 'cust']
+    tags_all = ['div', 'svg', 'Foo', 'C1', 'KeepAlive', 'mem', 'memtag', 'memsvg', 'cust', 'mem3', 'mem4', 'memthis', 'memthis3']
     pal = QUICK_ATTRS if tier == 'quick' else QUICK_ATTRS + MORE_ATTRS
     # tag forms (symbolic names of every length up to the bound) with and without a custom-element pattern
     for n in range(1, (4 if tier == 'quick' else 6) + 1):
